@@ -35,6 +35,8 @@
 //!    batch/empty, batch/whole-batch-error, inject/non-object, grid/degenerate — fire again if the defect returns)
 //!   pipeline/query-unanswered         a query got no response at all
 //!   search/unknown-origin-accepted    an out-of-range origin / destination id is answered with a success
+//!   response/request-not-echoed-by-search   run_single_query answered an expanded query with another `request`
+//!   table/non-object-result           an opaque (recorded) plugin turned an object into something that is not one
 //!   cost/total-not-reproducible       the same query reports total_cost values that differ from run to run
 //!   response/not-reproducible         the same query gives different responses in two runs in the same process
 //!   pipeline/request-not-echoed       no response of a query carries it as `request`
@@ -1715,6 +1717,25 @@ fn run_case(ctx: &mut Ctx, fx: &Fixture, persist_cfg: bool, gens: &[GenQ], plans
     ctx.count_n("queries", batch.len() as u64);
     for g in gens {
         ctx.count(&format!("q_{}", g.kind));
+        // the input classes the property names (C12): every one of them is run in the forked child, where a panic,
+        // an abort or a search that does not return is an observable outcome
+        let class = match g.kind {
+            "non_object" => Some("wrong_json_type"),
+            "missing_origin" | "ill_typed_od" | "plugin_field" | "odd_weight_estimate" | "mutated" => Some("missing_or_ill_typed_fields"),
+            "unknown_id" | "unreachable_destination" | "isolated_origin" => Some("out_of_range_ids"),
+            "bad_coordinates" => Some("out_of_range_coordinates"),
+            "degenerate_grid" => Some("degenerate_grid_section"),
+            "identical_od" => Some("identical_origin_destination"),
+            "unknown_vehicle" => Some("unknown_vehicle_name"),
+            "bad_weights" => Some("zero_or_bad_weights"),
+            _ => None,
+        };
+        if let Some(c) = class {
+            ctx.count(&format!("input_class_{}", c));
+        }
+    }
+    if batch.is_empty() {
+        ctx.count("input_class_empty_batch");
     }
     ctx.count(&format!("batch_size_{}", match batch.len() { 0 => "0", 1 => "1", 2..=4 => "2_4", 5..=16 => "5_16", _ => "17_plus" }));
 
@@ -1722,6 +1743,24 @@ fn run_case(ctx: &mut Ctx, fx: &Fixture, persist_cfg: bool, gens: &[GenQ], plans
     if !rep.complete {
         ctx.fail(first_idx, danger.unwrap_or("batch/timeout"), format!("the child running the batch was killed (alarm / memory limit / abort) under {}: batch {}", fx.label, clip(&Value::Array(batch.clone()).to_string())));
         return;
+    }
+    // the single-query function echoes the query it was given (the premise `hr` of C06.response_carries_request)
+    for (k, v) in &rep.respond {
+        let r = decode(v);
+        let echoed = r.get("request").map(|x| serde_json::to_string(x).unwrap_or_default());
+        if echoed.as_deref() != Some(k.as_str()) {
+            ctx.fail(first_idx, "response/request-not-echoed-by-search", format!("run_single_query on {} answers with request {:?}", clip(k), echoed.map(|e| clip(&e))));
+        }
+    }
+    // a recorded (opaque) plugin maps an object to an object (the hypothesis of C12.table_plugin_keeps_objects)
+    for recs in rep.tables.values() {
+        for r in recs {
+            if let Some(rest) = r.outcome.strip_prefix("ok ") {
+                if !decode(rest).is_object() {
+                    ctx.fail(first_idx, "table/non-object-result", format!("an opaque plugin turned {} into something that is not an object", clip(&r.key)));
+                }
+            }
+        }
     }
     for (only_total, q) in &rep.not_reproducible {
         if *only_total {
@@ -2245,6 +2284,37 @@ pub fn run(ctx: &mut Ctx, profile: Profile) -> &'static str {
         let b = vec![gq(json!({"origin_vertex": 0, "destination_vertex": 3}), Expect::Ok, "valid_route", None), gq(json!(5), Expect::Any, "non_object", None)];
         run_case(ctx, fx, *pc, &b, simple(vec![Some(0)], 2), "corpus_parallelism_0", 20);
         run_case(ctx, fx, *pc, &b[1..], simple(vec![Some(0)], 1), "corpus_parallelism_0", 20);
+    }
+    // the input classes of C12 that live inside the single-query function / the matchers, one batch each
+    for label in ["none", "grid", "vertex_rtree", "grid_energy", "none_edge_oriented"] {
+        let Some(i) = find(label) else { continue };
+        let (fx, pc) = &fixtures[i];
+        let k = |q: Value, kind: &'static str| gq(q, Expect::Any, kind, None);
+        let mut b = vec![
+            k(json!({"origin_vertex": 0, "destination_vertex": 0}), "identical_od"),
+            k(json!({"origin_vertex": 0, "destination_vertex": 1, "weights": {"distance": 0, "time": 0, "energy_liquid": 0}}), "bad_weights"),
+            k(json!({"origin_vertex": 0, "destination_vertex": 1, "weights": {}}), "bad_weights"),
+            k(json!({"origin_vertex": 0, "destination_vertex": 1, "weights": {"no_such_feature": 1}}), "bad_weights"),
+            k(json!({"origin_vertex": 0, "destination_vertex": 1, "weights": {"distance": -1, "time": 1}}), "bad_weights"),
+            k(json!({"origin_vertex": 0, "destination_vertex": 1, "model_name": "no_such_vehicle"}), "unknown_vehicle"),
+            k(json!({"origin_vertex": 0, "destination_vertex": 1, "model_name": 7}), "unknown_vehicle"),
+            k(json!({"origin_vertex": 1u64 << 63, "destination_vertex": 1}), "unknown_id"),
+            k(json!({"origin_vertex": 0, "destination_vertex": u64::MAX}), "unknown_id"),
+            k(json!({"origin_edge": 0, "destination_edge": 0}), "identical_od"),
+            k(json!({"origin_edge": u64::MAX, "destination_edge": 1}), "unknown_id"),
+            k(json!({"origin_x": 1.0e308, "origin_y": -1.0e308, "destination_x": 0, "destination_y": 0}), "bad_coordinates"),
+            k(json!({"origin_x": 181.0, "origin_y": 91.0}), "bad_coordinates"),
+            k(json!({"origin_x": -105.0, "origin_y": 39.7, "destination_x": "east", "destination_y": null}), "bad_coordinates"),
+        ];
+        if label == "grid_energy" {
+            for q in b.iter_mut() {
+                if let Value::Object(m) = &mut q.q {
+                    m.entry("model_name").or_insert(json!("camry"));
+                }
+            }
+        }
+        let n = b.len();
+        run_case(ctx, fx, *pc, &b, simple(vec![None, Some(3)], n), "corpus_input_classes", 30);
     }
     if let Some(i) = find("none_edge_oriented") {
         let (fx, pc) = &fixtures[i];
